@@ -284,58 +284,69 @@ vp_proof! {
     }
 }
 
-// Minkowski: the arguments handed to powf (recorder stub), and — natively — the value.
-macro_rules! minkowski_args {
-    ($name:ident, $d:expr, $p:expr) => {
+// Minkowski of order p = 1, 2, 3: value against the closed form (sum |d|^p)^(1/p), non-negativity, symmetry, coincidence with
+// Manhattan (p = 1) and Euclidean (p = 2).  `powf` is replaced by a semantic stub (exact products / sqrt / a cube-root
+// specification), so the assertions are about VALUES and hold for any correct way of organising the computation.
+macro_rules! minkowski_value {
+    ($name:ident, $d:expr, $p:expr, $ft:ty, $powf:path, $stub:path, $lat:ident, $tol:expr) => {
         #[cfg_attr(kani, kani::proof)]
         #[cfg_attr(kani, kani::unwind(6))]
-        #[cfg_attr(kani, kani::stub(f64::powf, crate::common::rec_powf64))]
+        #[cfg_attr(kani, kani::stub($powf, $stub))]
         pub fn $name() {
             let mut xi = [0i32; $d];
             let mut yi = [0i32; $d];
-            let mut x = vec![0f64; $d];
-            let mut y = vec![0f64; $d];
+            let mut x = vec![0 as $ft; $d];
+            let mut y = vec![0 as $ft; $d];
             for t in 0..$d {
-                let (a, b) = lat64(-4, 4);
+                let (a, b) = $lat(-4, 4);
                 xi[t] = a;
                 x[t] = b;
-                let (a, b) = lat64(-4, 4);
+                let (a, b) = $lat(-4, 4);
                 yi[t] = a;
                 y[t] = b;
             }
-            let r: f64 = Distances::minkowski($p).distance(&x, &y);
-            if cfg!(vp_playback) {
-                // native meaning: the value itself (real powf)
-                let mut s = 0f64;
-                for t in 0..$d {
-                    s += ((xi[t] - yi[t]).abs() as f64).powi($p);
+            let r: $ft = Distances::minkowski($p).distance(&x, &y);
+            let r2: $ft = Minkowski { p: $p }.distance(&y, &x);
+            let mut s = 0i32; // sum |d|^p
+            for t in 0..$d {
+                let d = (xi[t] - yi[t]).abs();
+                let mut pw = 1i32;
+                for _ in 0..$p {
+                    pw *= d;
                 }
-                let want = s.powf(1.0 / ($p as f64));
-                vp_assert!((r - want).abs() <= 1e-12 * (1.0 + want), "C17:minkowski-closed-form");
-            } else {
-                vp_assert!(nlog64() == 2 * $d + 2, "C17:minkowski-powf-calls");
-                let mut s = 0f64;
-                for t in 0..$d {
-                    vp_assert!(getlog64(2 * t) == (xi[t] - yi[t]).abs() as f64, "C17:minkowski-inner-base");
-                    vp_assert!(getlog64(2 * t + 1) == $p as f64, "C17:minkowski-inner-exponent");
-                    s += (xi[t] - yi[t]).abs() as f64; // surrogate: powf(b, e) = b
-                }
-                vp_assert!(getlog64(2 * $d) == s, "C17:minkowski-outer-base");
-                vp_assert!(getlog64(2 * $d + 1) == 1.0 / ($p as f64), "C17:minkowski-outer-exponent");
-                vp_assert!(r == s, "C17:minkowski-returns-outer-power");
+                s += pw;
+            }
+            vp_assert!(r >= 0.0, "C17:minkowski-nonneg");
+            let mut rp: $ft = 1.0; // r^p
+            let mut rp2: $ft = 1.0;
+            for _ in 0..$p {
+                rp *= r;
+                rp2 *= r2;
+            }
+            // compared through the p-th powers (the cube-root stub is a specification, not a function)
+            vp_assert!((rp - rp2).abs() <= 2.0 * $tol * (1.0 + rp), "C17:minkowski-symmetric");
+            vp_assert!((rp - s as $ft).abs() <= $tol * (1.0 + s as $ft), "C17:minkowski-closed-form");
+            if s == 0 {
+                vp_assert!(r == 0.0, "C17:minkowski-identity");
+            }
+            if $p == 1 {
+                let m: $ft = Manhattan {}.distance(&x, &y);
+                vp_assert!((r - m).abs() <= $tol * (1.0 + m), "C17:minkowski-1-is-manhattan");
             }
             vp_reached!();
         }
     };
 }
-// @vp name=c17_minkowski_args_d2_p1 prop=C17 tier=quick t=300 fns=Minkowski::distance size=d=2,p=1 dom=lattice(-4..4),f64 stubs=rec_powf64
-minkowski_args!(c17_minkowski_args_d2_p1, 2, 1);
-// @vp name=c17_minkowski_args_d2_p2 prop=C17 tier=quick t=300 fns=Minkowski::distance size=d=2,p=2 dom=lattice(-4..4),f64 stubs=rec_powf64
-minkowski_args!(c17_minkowski_args_d2_p2, 2, 2);
-// @vp name=c17_minkowski_args_d3_p3 prop=C17 tier=quick t=300 fns=Minkowski::distance size=d=3,p=3 dom=lattice(-4..4),f64 stubs=rec_powf64
-minkowski_args!(c17_minkowski_args_d3_p3, 3, 3);
-// @vp name=c17_minkowski_args_d1_p5 prop=C17 tier=thorough t=300 fns=Minkowski::distance size=d=1,p=5 dom=lattice(-4..4),f64 stubs=rec_powf64
-minkowski_args!(c17_minkowski_args_d1_p5, 1, 5);
+// @vp name=c17_minkowski_value_d2_p1 prop=C17 tier=quick t=480 fns=Minkowski::distance size=d=2,p=1 dom=lattice(-4..4),f64 stubs=powf_sem64
+minkowski_value!(c17_minkowski_value_d2_p1, 2, 1, f64, f64::powf, crate::common::powf_sem64, lat64, 1e-9);
+// @vp name=c17_minkowski_value_d3_p1 prop=C17 tier=quick t=480 fns=Minkowski::distance size=d=3,p=1 dom=lattice(-4..4),f64 stubs=powf_sem64
+minkowski_value!(c17_minkowski_value_d3_p1, 3, 1, f64, f64::powf, crate::common::powf_sem64, lat64, 1e-9);
+// @vp name=c17_minkowski_value_d2_p2 prop=C17 tier=quick t=480 fns=Minkowski::distance size=d=2,p=2 dom=lattice(-4..4),f32 stubs=powf_sem32
+minkowski_value!(c17_minkowski_value_d2_p2, 2, 2, f32, f32::powf, crate::common::powf_sem32, lat32, 1e-4);
+// @vp name=c17_minkowski_value_d2_p3 prop=C17 tier=quick t=480 fns=Minkowski::distance size=d=2,p=3 dom=lattice(-4..4),f32 stubs=powf_sem32
+minkowski_value!(c17_minkowski_value_d2_p3, 2, 3, f32, f32::powf, crate::common::powf_sem32, lat32, 1e-3);
+// @vp name=c17_minkowski_value_d3_p3 prop=C17 tier=thorough t=3000 fns=Minkowski::distance size=d=3,p=3 dom=lattice(-4..4),f32 stubs=powf_sem32
+minkowski_value!(c17_minkowski_value_d3_p3, 3, 3, f32, f32::powf, crate::common::powf_sem32, lat32, 1e-3);
 
 // @vp name=c17_minkowski_p0_panics prop=C17 tier=quick t=300 fns=Minkowski::distance size=d=2,p=0 dom=lattice(-4..4) expect=panic
 #[cfg_attr(kani, kani::proof)]
